@@ -183,7 +183,7 @@ def run_real(binary, case):
     if case.get("buffer") is not None:
         env["YGM_COMM_BUFFER_SIZE_KB"] = case["buffer"]
     return C.run_sim(binary, case["tokens"], nodes=nodes, ppn=ppn, env=env, sim_seed=case["sim_seed"],
-                     policy=case["policy"], want_log=False, timeout=120, max_steps=600000, livelock=150000)
+                     policy=case["policy"], want_log=False, timeout=120, max_steps=250000, livelock=100000)
 
 
 def parse_outs(sr, nranks):
@@ -581,7 +581,7 @@ def run(tier, seed, model_ok=True):
         return res
     if not model_ok:
         res.corr_failures.append({"relation": "model driver available", "what": "Lean library does not build", "case": None})
-    n1, nm = (60, 240) if tier == "quick" else (400, 3000)
+    n1, nm = (120, 900) if tier == "quick" else (2000, 20000)
     rnd = random.Random(seed * 1000003 + 17)
     jobs = []
     for i in range(n1):
@@ -675,7 +675,7 @@ def shrink(binary, failure, model_ok):
         return None
     best = None
     chunk = max(1, len(toks) // 4)
-    budget = 60
+    budget = 10 if sig.startswith("dset-nontermination") else 60
     while chunk >= 1 and budget > 0:
         i = 0
         while i < len(toks) and budget > 0:
